@@ -490,6 +490,9 @@ func (w *world) userWrite(t *simcore.Task, only *uint64) {
 		kind := c.Weighted([]int{6, 3, 1})
 		if w.cleanPacing {
 			kind = 0
+			if exists && c.Choose(3) == 0 {
+				kind = 1 // the change that follows a run of failures may be a deletion: its retries are paced anew
+			}
 		}
 		switch {
 		case kind == 1 && exists:
@@ -773,7 +776,7 @@ func (o *opsSeam) finish(a *attempt) error {
 	if w.cleanPacing && !w.healed {
 		// fail a run of consecutive attempts, then let one succeed
 		n := 0
-		for i := len(o.rc.attempts) - 2; i >= 0 && !o.rc.attempts[i].ok && o.rc.attempts[i].ver == a.ver; i-- {
+		for i := len(o.rc.attempts) - 2; i >= 0 && !o.rc.attempts[i].ok && o.rc.attempts[i].ver == a.ver && o.rc.attempts[i].del == a.del; i-- {
 			n++
 		}
 		fail = n < 3+w.c.Choose(4)
